@@ -784,7 +784,7 @@ fn gen_comp_spec(seed: u64, focus: &str, tier: &str) -> RunSpec {
             let mut used = vec![false; 2048];
             let tries = rng.range(6, 40);
             for _ in 0..tries {
-                let bits = *rng.pick(&[1u64, 1, 2, 2, 4, 4, 8, 8, 16, 32, 64]);
+                let bits = *rng.pick(&[1u64, 1, 2, 2, 4, 4, 8, 8, 8, 16, 16, 32, 32, 64]);
                 // bit offset relative to the header address, between -64*8 and +120*8
                 let byte = rng.range(0, 183) as i64 - 64;
                 let off = if bits < 8 {
@@ -818,7 +818,7 @@ fn gen_comp_spec(seed: u64, focus: &str, tier: &str) -> RunSpec {
             let nthreads = rng.range(2, 6) as usize;
             for _ in 0..nthreads {
                 let n = rng.range(20, if big { 600 } else { 200 }) as usize;
-                programs.push((0..n).map(|_| c(if wl.chance(1, 5) { wl.range(11, 12) as u8 } else { wl.range(1, 10) as u8 }, wl.below(64), wl.next_u64(), 0)).collect());
+                programs.push((0..n).map(|_| c(if wl.chance(1, 4) { wl.range(11, 14) as u8 } else { wl.range(1, 10) as u8 }, wl.below(64), wl.next_u64(), 0)).collect());
             }
             shape = "header metadata: bit fields sharing bytes accessed by several threads";
         }
